@@ -186,6 +186,21 @@ pub fn run(tier: &str, seed: u64) -> i32 {
             }
         },
     );
+    // nested blocks on one holder against objects and arrays of objects
+    gen::drive(
+        &mut report,
+        2,
+        n / 8,
+        || (gen::rule_nested_focus(true), prop::collection::vec((any::<u16>(), any::<u8>()), 24)),
+        |(rule, picks): &(RuleSpec, Vec<(u16, u8)>)| {
+            if !rule.well_formed() {
+                return vec![];
+            }
+            vec![make_case(rule, gen::nested_docs(rule, picks))]
+        },
+        judge,
+        |_, rep| rep.label("same_holder_nested_rule"),
+    );
     report.finish()
 }
 
